@@ -112,10 +112,13 @@ static void save_current(const std::vector<Op>& ops, unsigned perm) {
 // C07 metamorphic relation ("as if it had never existed"): remove one forbidding expectation F, its release and
 // every call for which F was the designated candidate; every remaining call must have the same outcome and the
 // same handler (identified by the position of the handler's create operation) in both worlds. Real vs real.
+// Only for forbids that are in no sequence (C07 quantifies over stackings, lifetimes, arguments and repeated calls): a
+// run-time forbid placed IN_SEQUENCE is a step of its sequence, which later steps have to pass over (C02's cost), so it
+// is not "as if it had never existed" for them and the relation does not apply.
 static std::string forbid_metamorphic(const std::vector<Op>& ops, unsigned perm, const Interp& h) {
   std::vector<size_t> forbids;
   for (size_t i = 0; i < ops.size(); ++i)
-    if (ops[i].kind == O_CREATE && ops[i].at(CA_HI) == 0 && h.optrace[i].created_eid >= 0) forbids.push_back(i);
+    if (ops[i].kind == O_CREATE && ops[i].at(CA_HI) == 0 && ops[i].at(CA_NSEQ) == 0 && h.optrace[i].created_eid >= 0) forbids.push_back(i);
   if (forbids.empty()) return "";
   size_t fi = forbids[perm % forbids.size()];
   int slot = ops[fi].at(CA_SLOT), lit = ops[fi].at(CA_LIT), feid = h.optrace[fi].created_eid;
@@ -203,6 +206,10 @@ static int do_replay(const std::string& path, bool verbose) {
     if (rel) bad = true;
     if (verbose) printf("%s mismatch [%s] at op %zu (%s): %s\n", rel ? "RELEVANT" : "other", cat_name(mm.cat), mm.op_index,
                         mm.op_index < ops.size() ? op_pretty(ops[mm.op_index]).c_str() : "teardown", mm.msg.c_str());
+  }
+  if (!bad && A.prop == "C07" && !r.degraded && !it.stop && r.mismatches.empty()) {   // the relation is part of the check: a replay runs it too
+    std::string mm = forbid_metamorphic(ops, perm, it);
+    if (!mm.empty()) { bad = true; if (verbose) printf("RELEVANT [forbid-metamorphic] %s\n", mm.c_str()); }
   }
   if (verbose) {
     for (size_t i = 0; i < ops.size(); ++i) printf("  %2zu: %s\n", i, op_pretty(ops[i]).c_str());
